@@ -186,10 +186,13 @@ def run_form(spec):
 def bad_codes(rng, n):
     out = []
     for _ in range(n):
-        kind = rng.choice(["space", "space-np", "alpha-np", "empty-np", "ws-np", "trail-nl", "lead-nl", "mixed", "sign", "dot", "onlyspace"])
+        kind = rng.choice(["space", "space-np", "alpha-np", "empty-np", "ws-np", "trail-nl", "lead-nl", "mixed", "sign", "dot", "onlyspace", "surrogate"])
         words = "-".join(rng.sample(["purple", "sausages", "alpha", "x", "ü"], rng.randint(0, 3)))
         np_ = str(rng.randint(0, 9999))
-        if kind == "space":
+        if kind == "surrogate":
+            # a str that has no encoding at all (what a non-UTF-8 byte on the command line turns into)
+            code = np_ + "-" + (words + "-" if words else "") + rng.choice(["caf\udce9", "\udcff", "x\ud800y"])
+        elif kind == "space":
             code = np_ + "-" + (words + " x" if words else " ")
         elif kind == "space-np":
             code = rng.choice([" " + np_, np_ + " ", np_[:1] + " " + np_[1:]]) + "-" + words
@@ -262,7 +265,7 @@ def run_reject(spec):
     # the words typed at the prompt complete the code: words that make it malformed (a space) are rejected like
     # any other malformed code, and nothing of the key exchange is sent for them
     sch.run(60)
-    for words in rng.sample(["purple sausages", " purple-sausages", "purple-sausages ", "purple- sausages", "a b c", " "], 3):
+    for words in rng.sample(["purple sausages", " purple-sausages", "purple-sausages ", "purple- sausages", "a b c", " ", "purple-caf\udce9", "\udcff"], 4):
         before = len([1 for (c, s, m) in world.server_cmds if s == side_b])
         try:
             helper.choose_words(words)
